@@ -23,11 +23,16 @@ def make_port(spec, sim_ports):
     k = spec[0]
     if k == "base":
         _, name, d, w, inv = spec
-        p = io.SimulationPort(d, w, invert=list(inv), name=name)
+        if name in sim_ports:
+            return sim_ports[name]
+        if sim_ports.get("__real__"):
+            p = io.SingleEndedPort(IOPort(w, name=name), invert=list(inv), direction=d)
+        else:
+            p = io.SimulationPort(d, w, invert=list(inv), name=name)
         sim_ports[name] = p
         return p
     if k == "slice":
-        return make_port(spec[1], sim_ports)[spec[2]:spec[3]]
+        return make_port(spec[1], sim_ports)[slice(*spec[2:])]
     if k == "index":
         return make_port(spec[1], sim_ports)[spec[2]]
     if k == "inv":
@@ -43,7 +48,7 @@ def ref_bits(spec):
         return [(name, j, bool(inv[j])) for j in range(w)], d
     if k == "slice":
         b, d = ref_bits(spec[1])
-        return b[spec[2]:spec[3]], d
+        return b[slice(*spec[2:])], d
     if k == "index":
         b, d = ref_bits(spec[1])
         return [b[spec[2]]], d
@@ -71,7 +76,7 @@ def show(spec):
     if k == "base":
         return f"{spec[1]}({spec[2]},{spec[3]},inv={''.join('1' if x else '0' for x in spec[4])})"
     if k == "slice":
-        return f"{show(spec[1])}[{spec[2]}:{spec[3]}]"
+        return f"{show(spec[1])}[{'' if spec[2] is None else spec[2]}:{'' if spec[3] is None else spec[3]}{':' + str(spec[4]) if len(spec) > 4 and spec[4] is not None else ''}]"
     if k == "index":
         return f"{show(spec[1])}[{spec[2]}]"
     if k == "inv":
@@ -325,8 +330,133 @@ def real_job(job):
                  signature={"kind": "real-port", "pkind": pkind, "bdir": bdir}, replay={"job": job})]
 
 
+def real_expr_job(job):
+    """Buffers on real ports built from slices, concatenations and inversions of two pads, possibly overlapping."""
+    spec, bdir = job["port"], job["bdir"]
+    text = f"Buffer({bdir!r}, {show(spec)}) on real pads -> RTLIL"
+    base = {"id": job["id"], "program": text, "nontrivial": True, "kind": "real-port expression RTLIL", "symbolic": "o, oe, pad values",
+            "assertion": "a pad bit used twice is rejected; otherwise pad bit == o bit ^ its inversion while enabled, i bit == pad bit ^ inversion, other pad bits untouched"}
+    bits, d = ref_bits(spec)
+    w = len(bits)
+    dupl = len({(n, j) for n, j, _ in bits}) < w
+    pads = {"__real__": True}
+    try:
+        port = make_port(spec, pads)
+    except IndexError as ex:
+        # a slice whose start lies beyond its stop is refused for every Amaranth value (Python would give an empty slice)
+        return [dict(base, kind="unconstructible", status="skipped", detail=str(ex))]
+    except Exception as ex:
+        return [dict(base, status=VIOLATION, detail=f"{text}: building the port raises {type(ex).__name__}: {ex}", signature={"kind": "port-raises"}, replay={"job": job})]
+    pads.pop("__real__")
+    m = Module()
+    m.submodules.buf = buf = io.Buffer(bdir, port)
+    o, oe, i = Signal(w, name="o"), Signal(name="oe"), Signal(w, name="i")
+    ports = [p._io for p in pads.values()]
+    if bdir != "i":
+        m.d.comb += [buf.o.eq(o), buf.oe.eq(oe)]
+        ports += [o, oe]
+    if bdir != "o":
+        m.d.comb += i.eq(buf.i)
+        ports.append(i)
+    try:
+        with warnings.catch_warnings():
+            warnings.simplefilter("ignore")
+            text_r = rtlil.convert(m, ports=ports, emit_src=False)
+    except Exception as ex:
+        if dupl and type(ex).__name__ == "DriverConflict":
+            return [dict(base, status=PROVED, nontrivial=False)]
+        return [dict(base, status=VIOLATION, detail=f"{text}: rtlil.convert raises {type(ex).__name__}: {ex}", signature={"kind": "convert-raises", "width": w},
+                     replay={"job": job})]
+    if dupl:
+        twice = sorted({(n, j) for n, j, _ in bits if sum(1 for n2, j2, _ in bits if (n2, j2) == (n, j)) > 1})
+        return [dict(base, status=VIOLATION, detail=f"{text}: pad bits {twice} are used by two buffer bits, yet the design is accepted", signature={"kind": "used-twice"},
+                     replay={"job": job})]
+    try:
+        R = rtlil_smt.Design(text_r)
+    except rtlil_smt.RtlilError as ex:
+        return [dict(base, status=VIOLATION, detail=f"{text}: RTLIL not interpretable: {ex}", signature={"kind": "not-interpretable"}, replay={"job": job})]
+    if w == 0:
+        return [dict(base, status=PROVED, nontrivial=False)]
+    zo, zoe = z3.BitVec("o", w), z3.BitVec("oe", 1)
+    ins = {}
+    if "\\o" in R.wires:
+        ins["\\o"] = zo
+    if "\\oe" in R.wires:
+        ins["\\oe"] = zoe
+    for wn in R.inputs:
+        if wn not in ins and R.wires[wn]:
+            ins[wn] = z3.BitVec("in_" + wn[1:], R.wires[wn])
+    ev = R.evaluator(ins, {"dff": {}, "mem": {}, "memrd": {}})
+    conds = []
+    try:
+        iv = ev.wire("\\i") if bdir != "o" else None
+        for k, (n, j, inv) in enumerate(bits):
+            padbit = ev.bit("\\" + n, j)
+            ob = z3.Extract(k, k, zo) ^ z3.BitVecVal(int(inv), 1)
+            if bdir != "i":
+                conds.append(z3.And(zoe == 1, padbit != ob))
+            if bdir != "o":
+                conds.append(z3.Extract(k, k, iv) != (padbit ^ z3.BitVecVal(int(inv), 1)))
+    except rtlil_smt.RtlilError as ex:
+        return [dict(base, status=VIOLATION, detail=f"{text}: RTLIL not interpretable: {ex}", signature={"kind": "not-interpretable"}, replay={"job": job})]
+    users = {}
+    for (name, kind, params, cports) in R.cells:
+        if kind == "$tribuf":
+            for (wname, b) in R._lhs_bits(cports["\\Y"]):
+                users[(wname, b)] = users.get((wname, b), 0) + 1
+    dup = [k for k, v in users.items() if v > 1]
+    # pad bits that are not part of the port expression stay untouched: no driver at all (or the top-level input itself)
+    used = {(n, j) for n, j, _ in bits}
+    extra = []
+    for n, pp in pads.items():
+        for j in range(len(pp._io)):
+            drv = R.drivers.get(("\\" + n, j))
+            if (n, j) not in used and drv is not None and drv[0] != "$input":
+                extra.append((n, j))
+    s = z3.Solver()
+    s.add(z3.Or(*conds) if conds else z3.BoolVal(False))
+    c = timed_check(s)
+    if c == z3.unsat and not dup and not extra:
+        return [dict(base, status=PROVED)]
+    if c == z3.unknown:
+        return [dict(base, status=INCONCLUSIVE, detail="solver unknown")]
+    return [dict(base, status=VIOLATION, detail=f"{text}: " + (f"pad bits driven by several buffer cells: {dup}" if dup else f"pad bits driven although not part of the port: {extra}" if extra
+                                                                    else f"RTLIL pad/fabric function differs: {s.model()}"),
+                 signature={"kind": "real-port-expr", "bdir": bdir}, replay={"job": job})]
+
+
+def gen_real_exprs(r, n):
+    """Expressions over two pads; the same pad may occur in both operands of '+', so bits can overlap."""
+    out = []
+    for _ in range(n):
+        d = r.choice(["i", "o", "io"])
+        bases = [("base", nm, d, w_, tuple(r.random() < 0.5 for _ in range(w_))) for nm, w_ in (("pa", r.randint(1, 4)), ("pb", r.randint(0, 3)))]
+
+        def piece():
+            b = r.choice(bases)
+            w_ = b[3]
+            c = r.random()
+            if c < 0.5:
+                a = r.randint(0, w_)
+                e = ("slice", b, a, r.randint(a, w_))
+            elif c < 0.7 and w_:
+                e = ("index", b, r.randrange(-w_, w_))
+            elif c < 0.85:
+                e = ("slice", b, r.choice([None, r.randint(-w_, w_)]), r.choice([None, r.randint(-w_, w_)]), r.choice([None, 2, -1]))
+            else:
+                e = b
+            return ("inv", e) if r.random() < 0.3 else e
+        e = piece()
+        for _ in range(r.randint(0, 2)):
+            e = ("add", e, piece())
+        out.append(e)
+    return out
+
+
 def job_fn(job):
-    return sim_job(job) if job["what"] == "sim" else real_job(job)
+    if job["what"] == "sim":
+        return sim_job(job)
+    return real_expr_job(job) if job["what"] == "real-expr" else real_job(job)
 
 
 def replay(path):
@@ -369,14 +499,18 @@ def gen_ports(r, n):
             if c < 0.35:
                 sub = expr(depth - 1, name)
                 w = len(ref_bits(sub)[0])
-                a = r.randint(0, w)
-                return ("slice", sub, a, r.randint(a, w))
+                if r.random() < 0.5:
+                    a = r.randint(0, w)
+                    return ("slice", sub, a, r.randint(a, w))
+                # Python slice semantics in full: negative and missing bounds, steps
+                bound = lambda: r.choice([None, r.randint(-w - 1, w + 1)])
+                return ("slice", sub, bound(), bound(), r.choice([None, None, 1, 2, -1, -2]))
             if c < 0.45:
                 sub = expr(depth - 1, name)
                 w = len(ref_bits(sub)[0])
                 if w == 0:
                     return sub
-                return ("index", sub, r.randrange(w))
+                return ("index", sub, r.randrange(-w, w))
             if c < 0.7:
                 return ("inv", expr(depth - 1, name))
             a = expr(depth - 1, name + "a")
@@ -416,6 +550,10 @@ def main(tier, seed):
             for pk in ("SingleEnded", "Differential"):
                 for bdir in ("i", "o", "io"):
                     jobs.append({"id": f"real-{len(jobs):05d}", "what": "real", "width": w, "invert": inv, "pkind": pk, "bdir": bdir, "pdir_same": mask % 2 == 0})
+    for pe in gen_real_exprs(r, 120 if tier == "quick" else 2500):
+        d = ref_bits(pe)[1]
+        for bdir in (["i", "o", "io"] if d == "io" else [d]):
+            jobs.append({"id": f"realx-{len(jobs):05d}", "what": "real-expr", "port": pe, "bdir": bdir})
     results, stats = run.run_jobs(job_fn, jobs, chunksize=4)
     skipped = [x for x in results if x.get("status") == "skipped"]
     results = [x for x in results if x.get("status") != "skipped"]
